@@ -35,9 +35,14 @@ func init() {
 			"evaluated from, its type operand is sliced back to its alternatives (phi edges, Type()/getReturnType of the same receiver, the cached field and its writers); for every alternative that " +
 			"is an integer type constant of sql/types, EVERY acyclic path selecting it must cross a positive type predicate about X's own type: IsUnsigned/IsYear for an unsigned type, an integer-like " +
 			"predicate for a signed one. `IsUnsigned(lTyp) || IsUnsigned(rTyp)` selects Uint64 on a path that knows nothing about one operand. Sites: IntDiv, Arithmetic (+ - *) decided; Div and Mod " +
-			"coerce to float only; BitOp is excluded (two's-complement wrap is the specified result of bit operations).",
-		NotCovered: "DECIMAL exactness (delegated to apd), float arithmetic and NaN, the sign rules of DIV and %, the decimal-scale bookkeeping in Div.div, the correctness of an accepted two-operand guard (only its shape is recognised), arithmetic done outside the kernel (functions, aggregates); for K3: alternatives of the computation type that are not type constants (the operand's own normalised type, DECIMAL types created by a call) are listed but not decided, whether the predicate set of a path is satisfiable, what Convert does for an integer-like operand (unsigned above MaxInt64 coerced to BIGINT), coercions that do not go through convertValueToType",
-		Technique:  "SSA + one-variable interval domain over dominating branch conditions (interval engine); K3: backward slice of the chosen type to its constant alternatives with per-path predicate sets (acyclic path enumeration over SSA blocks, interprocedural through methods of the same receiver), operand-to-child value tracing",
+			"coerce to float only; BitOp is excluded (two's-complement wrap is the specified result of bit operations). " +
+			"(M1) DECIMAL operations produce new values (destination freshness): apd.Decimal is a mutable object and the engine's DECIMAL values are shared *apd.Decimal pointers (the stored rows of the in-memory table, a Literal's value, an operand used by two operators of one expression). " +
+			"The writers of cockroachdb/apd are derived from its own source (a function writes its parameter d iff its body, transitively, stores through it: Decimal.Neg/Abs/Set*/..., Context.Add/Sub/Mul/Quo/Rem/Quantize/Ceil/Floor/Round/...; a frozen list of names confirmed by reading guards the derivation); " +
+			"module functions that pass their own parameter on to a writer are writers too (whatever the static type of the parameter: plus(lval, rval interface{})) and are decided at their static call sites. Every decimal write - call of a writer, direct field store into a Decimal - in the loaded module must have a destination whose every origin " +
+			"(phi edges, local variables flow-sensitively, type switches/assertions, struct fields, results of summarised callees) is an allocation of the writing function: new(apd.Decimal), &apd.Decimal{}, a local variable, apd.New, a callee that returns only fresh decimals; unexported accumulator fields are read off all module stores to the field. " +
+			"A destination that is the result of Eval/Type.Convert, a parameter of a dynamically dispatched method, a field set from outside, a global, or a struct copy new(*x) of such a decimal (it shares the heap part of a coefficient above 128 bits, which apd updates in place) is a violation: the write changes the stored row / literal / sibling operand.",
+		NotCovered: "DECIMAL exactness (delegated to apd), float arithmetic and NaN, the sign rules of DIV and %, the decimal-scale bookkeeping in Div.div, the correctness of an accepted two-operand guard (only its shape is recognised), arithmetic done outside the kernel (functions, aggregates); for K3: alternatives of the computation type that are not type constants (the operand's own normalised type, DECIMAL types created by a call) are listed but not decided, whether the predicate set of a path is satisfiable, what Convert does for an integer-like operand (unsigned above MaxInt64 coerced to BIGINT), coercions that do not go through convertValueToType; for M1: whether a decimal the function owns later escapes and is written again by someone else (a buffer handing out its accumulator), writes done inside callees whose bodies are not read other than apd's (reflection, encoding), aliases created by storing the address of a local elsewhere, decimals reached through exported fields (treated as not owned), packages outside the loaded patterns in the quick tier (the thorough tier finds the same 21 writes in the whole engine)",
+		Technique:  "SSA + one-variable interval domain over dominating branch conditions (interval engine); K3: backward slice of the chosen type to its constant alternatives with per-path predicate sets (acyclic path enumeration over SSA blocks, interprocedural through methods of the same receiver), operand-to-child value tracing; M1: backward origin analysis over go/ssa (freshness engine: identity leaves fresh/param/global/foreign, flow-sensitive local cells, field-content invariants from the module-wide store index, callee result and write summaries incl. the dependency package's bodies, forwarding closure over the static call graph)",
 		Run: func(c *Ctx) {
 			runC25(c, c25Config{Rel: "sql/expression",
 				Kernel:  []string{"plus", "minus", "mult", "UnaryMinus.Eval", "intDiv", "mod"},
@@ -55,7 +60,7 @@ func init() {
 				confirmed: []string{"Decimal.Neg/d", "Decimal.Abs/d", "Decimal.Set/d", "Decimal.SetInt64/d", "Decimal.SetFinite/d", "Decimal.SetFloat64/d", "Decimal.SetString/d",
 					"Context.Add/d", "Context.Sub/d", "Context.Mul/d", "Context.Quo/d", "Context.QuoInteger/d", "Context.Rem/d", "Context.Neg/d", "Context.Abs/d",
 					"Context.Quantize/d", "Context.Round/d", "Context.Ceil/d", "Context.Floor/d", "Context.RoundToIntegralValue/d", "Context.Sqrt/d", "Context.Pow/d"},
-				floor: 0, exc: c25MutExceptions})
+				floor: 18, exc: c25MutExceptions})
 		},
 		Fixture: func(c *Ctx, fx *Prog) {
 			expectFixture(c, fx, "c25: unguarded add, narrowing before negation, negation of MinInt, float->int, MinInt / -1",
